@@ -6,7 +6,8 @@ VARIABLES cfg, ph
 vars == <<cfg, ph>>
 
 Init == /\ cfg = [defProto |-> "unset", defCodec |-> "unset", defComp |-> "unset", svcProto |-> "unset",
-                  svcCodec |-> "unset", svcComp |-> "unset", dup |-> FALSE, rule |-> "none", sel |-> "exact:Get"]
+                  svcCodec |-> "unset", svcComp |-> "unset", dup |-> FALSE, rule |-> "none", sel |-> "exact:Get",
+                  rule2 |-> "none", rule2first |-> FALSE]
         /\ ph = "defaults"
 
 \* WithDefaultServiceOptions
@@ -28,7 +29,10 @@ Rules == /\ ph = "rules"
               \* full selector x kind product only on otherwise default configurations
               /\ (cfg.defProto = "unset" /\ cfg.defCodec = "unset" /\ cfg.svcProto \in {"unset", "rest"} /\ cfg.svcCodec = "unset" /\ ~cfg.dup)
                  \/ (k \in {"none", "get"} /\ s \in {"exact:Get", "exact:Do"})
-              /\ cfg' = [cfg EXCEPT !.rule = k, !.sel = s]
+              /\ \E k2 \in Rule2Kinds, first \in BOOLEAN :
+                   /\ (k2 = "none" => ~first)
+                   /\ (k2 # "none" => (k \in {"none", "get"} /\ s \in {"exact:Get", "exact:GetBook", "nomatch"}))
+                   /\ cfg' = [cfg EXCEPT !.rule = k, !.sel = s, !.rule2 = k2, !.rule2first = first]
          /\ ph' = "done"
 Done == ph = "done" /\ UNCHANGED vars
 Next == Defaults \/ ServiceOptions \/ Rules \/ Done
